@@ -429,6 +429,27 @@ def check_text_origin(res, frame, shape, pi):
                           f'visual {dict(P[0].visual)} -> {dict(g.visual) if g else None}', text, t2)
         if t3 != t2:
             res.violation(ID, 'not_fixed_point', case, f'serialize(parse(serialize(P))) != serialize(P) at precision {prec}', t2, t3)
+    # a parsed region is a region like any other: visual attributes edited after parsing are what gets written
+    edits = {'markersize': 25, 'linewidth': 7, 'fontsize': 31, 'color': 'magenta'}
+    try:
+        res.transitions += 2
+        Pe, _ = _parse(text)
+        applied = {}
+        for k, v in edits.items():
+            if k in Pe[0].visual:
+                Pe[0].visual[k] = v
+                applied[k] = v
+        if applied:
+            t4, _ = _ser([Pe[0]], precision=8)
+            P4, _ = _parse(t4)
+            back = {k: P4[0].visual.get(k) for k in applied} if len(P4) == 1 else None
+            lost = None if back is None else {k: (applied[k], back[k]) for k in applied
+                                              if str(back[k]) != str(applied[k]) and not (k == 'color' and back[k] is not None and str(back[k]).lower() == 'magenta')}
+            if back is None or lost:
+                res.violation(ID, 'edit_after_parse_lost', case, f'{line} # {props}: visual attributes changed after parsing to {applied} are written and '
+                                                                f'read back as {back} (stale: {lost})', applied, back)
+    except Exception as exc:          # noqa: BLE001
+        res.violation(ID, 'fixed_point_raises', case, f'editing the visual attributes of a parsed region and serialising it raised {type(exc).__name__}: {exc}')
     res.outcome(('text_origin', shape, pi))
     res.nontriv(('text_origin', frame, shape, pi))
 
@@ -462,8 +483,8 @@ def _inexpressible(kind):
         return R.CompoundPixelRegion(make_region(catalogue()[0]), make_region(catalogue()[2]), operator.or_)
     if kind == 'compound_sky':
         return R.CompoundSkyRegion(make_region(catalogue()[4]), make_region(catalogue()[5]), operator.and_)
-    if kind == 'supergalactic':
-        return R.CircleSkyRegion(SkyCoord(10 * u.deg, 20 * u.deg, frame='supergalactic'), 3 * u.arcmin)
+    if kind in ('supergalactic', 'geocentrictrueecliptic', 'heliocentricmeanecliptic'):      # frames DS9 has no name for
+        return R.CircleSkyRegion(SkyCoord(10 * u.deg, 20 * u.deg, frame=kind), 3 * u.arcmin)
     raise ValueError(kind)
 
 
@@ -546,7 +567,7 @@ def list_cases(tier):
     for L in (0, 1, 2):
         for idxs in itertools.product(range(0, n, 1 if tier == 'thorough' else 3), repeat=L):
             for pos in range(L + 1):
-                for kind in ('compound_pix', 'compound_sky', 'supergalactic'):
+                for kind in ('compound_pix', 'compound_sky', 'supergalactic') + (('geocentrictrueecliptic', 'heliocentricmeanecliptic') if L < 2 else ()):
                     out.append({'idxs': list(idxs), 'insert': [pos, kind]})
     return out
 
